@@ -272,4 +272,20 @@ CHECKS = {
         thorough=[R("^TestFixed$", 1, 1, 600), R("^TestChannels$", 300, 15, 3400, shrinktime="180s")],
         floors={"cross-host": ("TestChannels", 0.3), "alias": ("TestChannels", 0.3)},
     ),
+    "C14": dict(
+        pkg="./props/c14", bins=["./cmd/simcore"], level="exploration",
+        rule=("(A1) rapid-generated wrap/unwrap/set/del histories over up to 5 gera maps against a nearest-definition list-of-maps model (Flattened, "
+              "Get, Has, Len, WrappedAndFlattened after every step); (A2) generated chains of 1-4 levels of defaults/vars/user vars (+locals) "
+              "evaluated through template.Sequence at every stage 0-5 against the documented visibility table; (B) whole core: generated role "
+              "trees of depth 1-5 (optionally with an iterator level) where each of 5 keys is present / empty / absent in defaults and vars of "
+              "every level, in the environment-wide Consul defaults/vars, in the request's user variables and in the task template's own "
+              "defaults/vars; compared with the consolidated stack of every role (GetEnvironment workflow tree), the launched command line, the "
+              "CONFIGURE properties and the variable stack seen by a call at every level, using a reference resolver written from the "
+              "handbook. Non-trivial: a key defined in >=2 kinds at >=2 levels with >=1 empty value (B), a chain of >=3 maps with an empty "
+              "value (A1), >=2 definitions over >=2 levels (A2)."),
+        assumptions=["the relative rank of a task template's own defaults and vars is not claimed (statement silent)",
+                     "role-level user variables exist only through the request (root) in the generated cases"],
+        quick=[R("^TestGeraMap$", 3000, 1, 300), R("^TestStageVisibility$", 600, 2, 300), R("^TestPrecedenceFixed$", 1, 1, 300), R("^TestPrecedence$", 25, 8, 900, shrinktime="90s")],
+        thorough=[R("^TestGeraMap$", 100000, 2, 1500), R("^TestStageVisibility$", 15000, 4, 1500), R("^TestPrecedenceFixed$", 1, 1, 300), R("^TestPrecedence$", 300, 14, 3400, shrinktime="180s")],
+    ),
 }
